@@ -73,13 +73,26 @@ def rule_census(ctx):
         ctx.ob(R, name, ok, "operations: %s" % norm if ok else "%s contains operations %s and %d cast(s); expected %s and none" % (name, norm, casts, sorted(o.replace("WithOverflow", "") for o in ops)), f.loc())
 
 
-def loop_head(ctx, f, pred=None):
-    """Block of the Iterator::next call of the (first matching) for-loop."""
+def loop_head(ctx, f, pred=None, target=None):
+    """Block of the Iterator::next call heading a for-loop: the innermost loop containing block `target`
+    (the next-call block that dominates it and is itself dominated by the most blocks), else the first."""
     T = ctx.T(f)
-    for c in T.calls():
-        if c["q"] == "std::iter::Iterator::next" and (pred is None or pred(T.args_of(c))):
-            return c["bb"]
-    return None
+    heads = [c["bb"] for c in T.calls() if c["q"] == "std::iter::Iterator::next" and (pred is None or pred(T.args_of(c)))]
+    if not heads:
+        return None
+    if target is None:
+        return heads[0]
+    cfg = ctx.cfg(f)
+    targets = target if isinstance(target, (list, set, tuple)) else [target]
+    best = None
+    for h in heads:
+        if all(cfg.dominates(h, t) for t in targets):
+            # the loop must be able to come back to its head from the target (target is inside the loop)
+            if all(h in cfg.reach_from([t]) for t in targets):
+                depth = bin(cfg.dominators()[h]).count("1")
+                if best is None or depth > best[0]:
+                    best = (depth, h)
+    return best[1] if best else None
 
 
 def rule_domain(ctx):
@@ -124,7 +137,7 @@ def rule_domain(ctx):
     W = Walker(ctx, f, atoms)
     ins = [c["bb"] for c in T.calls() if c["q"].endswith("BTreeMap::insert")]
     oks = [bi for bi, b in enumerate(f.blocks) for s in b["s"] if s["k"] == "assign" and s["p"]["l"] == 0 and s["r"]["k"] == "agg" and s["r"].get("variant") == "Ok"]
-    head = loop_head(ctx, f)
+    head = loop_head(ctx, f, target=ins)
     ctx.floor(R, "insert sites", len(ins), 1)
     ctx.floor(R, "Ok returns", len(oks), 1)
     ctx.ob(R, "loop head", head is not None, "validator loop found (bb%s)" % head, f.loc())
